@@ -385,7 +385,8 @@ class Ctx:
             json.dump(rec, f, indent=1, default=str)
         self.violations.append(rec)
         tail = "" if found_input else " no-failing-input-found"
-        if n < 12:
+        nconc = len([v for v in self.violations if v and v.get("found_input")])
+        if n < 12 or (found_input and nconc <= 6):      # concrete failing inputs are always shown, however many broken obligations came first
             print(f"VIOLATION property={self.prop} replay={path}{tail}", flush=True)
             print(f"  component={component} kind={kind}: {str(what or detail)[:300]}", flush=True)
         elif n == 12:
